@@ -53,6 +53,13 @@ func NewFuzzySearcher(indexReader search.Reader, term string,
 		return nil, fmt.Errorf("invalid fuzziness, negative")
 	}
 
+	if fuzziness == 0 {
+		// no edits allowed: only the term itself can match
+		// (there is no Levenshtein automaton to walk the dictionary with)
+		return NewMultiTermSearcherIndividualBoost(indexReader, []string{term}, []float64{1.0}, field,
+			boost, scorer, compScorer, options, true)
+	}
+
 	// Note: we don't byte slice the term for a prefix because of runes.
 	prefixTerm := ""
 	for i, r := range term {
